@@ -55,7 +55,14 @@ def creation_and_conversion(L, db, c, qt, u, fu, x=1.5):
     M("ObtainQuantity", lambda: ObtainQuantity(fu, c), case)
     M("Quantity(c,u)", lambda: Quantity(c, fu), case)
     M("Quantity.CreateDerived", lambda: Quantity.CreateDerived(OrderedDict([(c, [fu, 2])])), case)
-    M("ObtainQuantity([(u,e)],[c])", lambda: Quantity.CreateDerived(OrderedDict([(c, [fu, -1]), ("time" if c != "time" else "length", ["s" if c != "time" else "m", 1])])), case)
+    oc, ou = ("time", "s") if c != "time" else ("length", "m")
+    M("Quantity.CreateDerived(2 items)", lambda: Quantity.CreateDerived(OrderedDict([(c, [fu, -1]), (oc, [ou, 1])])), case)
+    # the derived request forms of ObtainQuantity, and values created on what they return
+    M("ObtainQuantity([(u,2)],[c])", lambda: ObtainQuantity([(fu, 2)], [c]), case)
+    M("ObtainQuantity([(u,-1),(v,1)],[c,d])", lambda: ObtainQuantity([(fu, -1), (ou, 1)], [c, oc]), case)
+    M("ObtainQuantity(OrderedDict)", lambda: ObtainQuantity(OrderedDict([(c, [fu, 3])])), case)
+    M("Scalar(ObtainQuantity([(u,2)],[c]),v)", lambda: Scalar(ObtainQuantity([(fu, 2)], [c]), x), case)
+    M("Array(ObtainQuantity(OrderedDict),values)", lambda: Array(ObtainQuantity(OrderedDict([(oc, [ou, 1]), (c, [fu, 2])])), [x]), case)
     s = Scalar(c, x, u)
     a = Array(c, [x, 2.0], u)
     an = Array(c, np.array([x, 2.0]), u)
